@@ -2,8 +2,8 @@
 
 Kernels (DESIGN.md section 4, C18; K6 / K7 are additions that run the whole program):
   K1  integers.  `eval` (a C boundary) is replaced, as seen from evaluate_integer.python_evaluate, by a stub that
-      returns a symbolic integer n, returns a value that is not an integer, or raises an exception out of the
-      catalogue of all exception classes of the interpreter.
+      returns a symbolic integer n, returns a value that is not an integer, raises an exception out of the
+      catalogue of all exception classes of the interpreter, or leaves through SystemExit (`exit()`).
         K1:evaluate     python_evaluate itself: the integer comes back, everything else is NotAnIntegerException
         K1:consumer:*   the three consumers (IntegerSdv validator, IntegerDdv validator, validation.evaluate) built
                         by the real integer parser: a validation error is *reported* (never an exception of another
@@ -19,11 +19,12 @@ Kernels (DESIGN.md section 4, C18; K6 / K7 are additions that run the whole prog
       instruction name, the message and exactly the source lines consumed.
   K3  regular expressions.  The real REGEX parser and validator (a) over `re.compile` replaced by a stub raising
       anything: always *reported* by the validator; (b) the real `replace` transformer with real `re` over catalogues
-      of patterns, replacement strings and texts: reported at validation, or HardErrorException when applied.
+      of patterns, replacement strings and texts: reported at validation, or HardErrorException when applied
+      (selectors concrete, then run natively: CrossHair's model of re.sub is kept out).
   K5  the last-resort nets.  Real executor with a stub step raising every exception class at every step; real
       execute_element / execute_action_and_catch_internal_error_exception / ProcessorFromAccessorAndExecutor with
       failing parts; the result is rendered by the real reporters: an outcome, never an escaping exception.
-  K6  the whole program (MainProgram.execute, in process) on a grammar of valid test cases covering every
+  K6  the whole program (MainProgram, in process, run natively once the selector is concrete) on a grammar of valid test cases covering every
       instruction and type, each mutated by token deletion / duplication / transposition / replacement, truncation,
       quote imbalance, wrong-type and undefined symbols, invalid / extreme integers, regexes, globs, paths.   [selector]
   K7  the whole program on document-level mistakes (unknown phase, unknown instruction, bad header, inclusion of a
@@ -83,7 +84,7 @@ EXPR = 'vsym_int_expr'  # the text handed to eval
 
 # values eval may return that are not integers (the selector picks one)
 NON_INTS = (1.5, 'a', None, [1], (1,), 1j, b'1', float('nan'))
-K_INT, K_NON_INT, K_RAISE = 0, 1, 2
+K_INT, K_NON_INT, K_RAISE, K_EXIT = 0, 1, 2, 3  # K_EXIT: eval leaves through SystemExit (`exit()`, `quit(7)`)
 
 _CAUGHT_BY_DESIGN = (SyntaxError, ValueError, TypeError, NameError)
 
@@ -114,8 +115,10 @@ def _install_eval(kind: int, sel: int, n: int):
         _EVAL.outcome = ('int', n)
     elif kind == K_NON_INT:
         _EVAL.outcome = ('value', ob.pick(NON_INTS, sel))
-    else:
+    elif kind == K_RAISE:
         _EVAL.outcome = ('raise', exc.instance(ob.pick(exc.NAMES, sel)))
+    else:
+        _EVAL.outcome = ('raise', SystemExit(7))
 
 
 def _uninstall_eval():
@@ -139,8 +142,10 @@ def _names_text(sample: str) -> str:
 
 def _pre_k1(kind: int, sel: int, n: int) -> bool:
     c = ob.case()
-    if not (0 <= kind <= 2):
+    if not (0 <= kind <= 3):
         return False
+    if kind == K_EXIT:
+        return sel == 0 and n == 0 and not ob.excluded(REGION_EVAL_EXIT)
     if kind == K_INT:
         if sel != 0:
             return False
@@ -168,7 +173,7 @@ def k1_evaluate(kind: int, sel: int, n: int) -> bool:
     post: _
     """
     from exactly_lib.impls.types.integer import evaluate_integer
-    kind = ob.concrete_int(kind, 0, 2)
+    kind = ob.concrete_int(kind, 0, 3)
     _install_eval(kind, sel, n)
     bug = ob.case().get('oracle_bug')
     try:
@@ -176,6 +181,8 @@ def k1_evaluate(kind: int, sel: int, n: int) -> bool:
         raised = None
     except evaluate_integer.NotAnIntegerException as e:
         got, raised = None, e
+    except SystemExit:
+        return ob.post(False)  # the evaluated text ended the program
     # any other exception propagates: the obligation fails
     finally:
         _uninstall_eval()
@@ -201,12 +208,27 @@ def k1_consumer(kind: int, sel: int, n: int) -> bool:
     from exactly_lib.test_case.path_resolving_env import PathResolvingEnvironmentPreSds
     from exactly_lib.util.symbol_table import SymbolTable
     c = ob.case()
-    kind = ob.concrete_int(kind, 0, 2)
+    kind = ob.concrete_int(kind, 0, 3)
     consumer = c['consumer']
     non_negative = consumer.endswith('non-negative')
     bug = c.get('oracle_bug')
     _install_eval(kind, sel, n)
     try:
+        return _k1_consumer(c, kind, n, consumer, non_negative, bug)
+    except SystemExit:
+        return ob.post(False)  # the evaluated text ended the program
+    finally:
+        _uninstall_eval()
+
+
+def _k1_consumer(c, kind, n, consumer, non_negative, bug) -> bool:
+    from exactly_lib.impls.exception import svh_exception
+    from exactly_lib.impls.exception.validation_error_exception import ValidationErrorException
+    from exactly_lib.impls.types.integer import parse_integer, validation
+    from exactly_lib.section_document.element_parsers.token_stream_parser import new_token_parser
+    from exactly_lib.test_case.path_resolving_env import PathResolvingEnvironmentPreSds
+    from exactly_lib.util.symbol_table import SymbolTable
+    if True:
         must_report = kind != K_INT or (non_negative and n < (1 if bug else 0))
         if consumer == 'validation.evaluate':
             try:
@@ -235,8 +257,6 @@ def k1_consumer(kind: int, sel: int, n: int) -> bool:
         if not reported:
             return ob.post(ddv.value_when_no_dir_dependencies() == n and ddv.value_of_any_dependency(None) == n)
         return ob.post(True)
-    finally:
-        _uninstall_eval()
 
 
 # (name, phase, instruction, restriction)  E is replaced by the expression text
@@ -282,7 +302,7 @@ def k1_site(kind: int, sel: int, n: int) -> bool:
     """
     from vsym import exeharness as xh
     c = ob.case()
-    kind = ob.concrete_int(kind, 0, 2)
+    kind = ob.concrete_int(kind, 0, 3)
     site = [s for s in SITES if s[0] == c['site']][0]
     non_negative = site[3] == 'non-negative'
     bug = c.get('oracle_bug')
@@ -292,6 +312,8 @@ def k1_site(kind: int, sel: int, n: int) -> bool:
         # a fresh document per path: instruction objects memoise the evaluated integer
         _SITE_DOCS.pop(site[0], None)
         run = xh.execute(plan, _site_doc(site))
+    except SystemExit:
+        return ob.post(False)  # the evaluated text ended the program
     finally:
         _uninstall_eval()
     if run.exception is not None or run.result is None:
@@ -707,6 +729,18 @@ def k3_replace(r: int, p: int, t: int, preserve: bool, selection: bool) -> bool:
     pre: _pre_k3_replace(r, p, t, preserve, selection)
     post: _
     """
+    rx, repl, text = ob.pick(RX, r), ob.pick(REPL, p), ob.pick(TEXTS, t)
+    preserve = ob.concrete_bool(preserve)
+    selection = ob.concrete_bool(selection)
+    bug = bool(ob.case().get('oracle_bug'))
+    # everything is concrete from here on: the real code and the real `re` run natively (CrossHair's own model of
+    # re.sub / Match.expand must not stand in for the engine: it does not raise as the engine does)
+    with cli.no_tracing():
+        verdict = _k3_replace_concrete(rx, repl, text, preserve, selection, bug)
+    return ob.post(verdict)
+
+
+def _k3_replace_concrete(rx: str, repl: str, text: str, preserve: bool, selection: bool, bug: bool) -> bool:
     import re
     from harness import C13
     from vsym import xly
@@ -715,10 +749,6 @@ def k3_replace(r: int, p: int, t: int, preserve: bool, selection: bool) -> bool:
     from exactly_lib.section_document.element_parsers.token_stream_parser import new_token_parser
     from exactly_lib.test_case.app_env import ApplicationEnvironment
     from exactly_lib.test_case.hard_error import HardErrorException
-    rx, repl, text = ob.pick(RX, r), ob.pick(REPL, p), ob.pick(TEXTS, t)
-    preserve = ob.concrete_bool(preserve)
-    selection = ob.concrete_bool(selection)
-    bug = ob.case().get('oracle_bug')
     src = 'replace %s%s%s %s' % ('-at line-num >= 1 ' if selection else '', '-preserve-new-lines ' if preserve else '',
                                  _quote(rx), _quote(repl))
     sdv = parse_string_transformer.parsers(False).full.parse_from_token_parser(new_token_parser(src))
@@ -728,32 +758,43 @@ def k3_replace(r: int, p: int, t: int, preserve: bool, selection: bool) -> bool:
         err = ddv.validator.validate_post_sds_if_applicable(None)
     if not _compiles(rx) or bug:
         # a regular expression that does not compile is reported by validation
-        return ob.post(err is not None)
+        return err is not None
     if err is not None:
         # validation may also reject the replacement string - but only one that re rejects
-        return ob.post(not _template_ok(rx, repl))
+        return not _template_ok(rx, repl)
     space = C13._NoFiles()
     tr = ddv.value_of_any_dependency(None).primitive(ApplicationEnvironment(None, None, space, 2 ** 20))
+    pattern = re.compile(rx)
+    parts = text.split('\n')
+    lines_in = [x + '\n' for x in parts[:-1]] + ([parts[-1]] if parts[-1] != '' else [])
     try:
         result = tr.transform(constant_str.string_source(text, space))
         with result.contents().as_lines as lines:
             out = ''.join(lines)
     except HardErrorException:
-        # "at the latest as HARD_ERROR when the instruction runs" - but only for a genuinely bad template
-        return ob.post(not _template_ok(rx, repl))
+        # "at the latest as HARD_ERROR when the instruction runs" - but only for a template that re rejects on this text
+        return _raises_on(pattern, repl, lines_in, preserve)
     # any other exception propagates: the obligation fails
-    if not _template_ok(rx, repl):
-        return ob.post(True)  # not reported and no failure on this text: nothing went wrong here
-    pattern = re.compile(rx)
+    if _raises_on(pattern, repl, lines_in, preserve):
+        return False  # the engine rejects the template on this text: that must have been reported
     exp = ''
-    parts = text.split('\n')
-    lines_in = [x + '\n' for x in parts[:-1]] + ([parts[-1]] if parts[-1] != '' else [])
     for line in lines_in:
         if preserve and line.endswith('\n'):
             exp += pattern.sub(repl, line[:-1]) + '\n'
         else:
             exp += pattern.sub(repl, line)
-    return ob.post(out == exp)
+    return out == exp
+
+
+def _raises_on(pattern, repl: str, lines_in, preserve: bool) -> bool:
+    """re's own verdict: does substituting in these lines raise?"""
+    for line in lines_in:
+        subject = line[:-1] if (preserve and line.endswith('\n')) else line
+        try:
+            pattern.sub(repl, subject)
+        except Exception:  # noqa: whatever re says
+            return True
+    return False
 
 
 # =========================================================================== K5  the last-resort nets
@@ -1281,7 +1322,10 @@ def k7_document(i: int) -> bool:
         if name.startswith('glob-pattern-'):
             # a glob pattern has no invalid form in the manual: any documented outcome (but not INTERNAL_ERROR)
             return ob.post(documented_outcome(r))
-        return ob.post(documented_outcome(r) and r['ident'] in REPORTED and _shows(r['stderr'], r['path'], 2, text.split('\n')[1]))
+        # an integer expression or a regular expression is known before anything runs: exit 65; a replacement string is
+        # only expanded when a match is found: exit 65, or HARD_ERROR of the instruction at the latest
+        accepted = REPORTED if name.startswith('replacement-') else cli.NOT_EXECUTED[:2]
+        return ob.post(documented_outcome(r) and r['ident'] in accepted and _shows(r['stderr'], r['path'], 2, text.split('\n')[1]))
     name, text, idents, line, quoted = ob.pick(DOC_MISTAKES, i)
     if c.get('oracle_bug'):
         idents = VAL
@@ -1310,7 +1354,7 @@ def obligations(tier: str) -> List[Ob]:
     names = 'the sample %s of the exception catalogue' % (list(exc.QUICK),) if quick else \
         'every exception class of the catalogue (%d: all Exception subclasses of builtins, Exception, re.error, an unknown class)' % exc.N
     # ---- K1
-    b1 = ('eval returns every integer n in Z / each of %d non-integer values / raises %s' % (len(NON_INTS), names))
+    b1 = ('eval returns every integer n in Z / each of %d non-integer values / raises %s / raises SystemExit' % (len(NON_INTS), names))
     obs.append(Ob(name='K1:evaluate', fn='k1_evaluate', case=dict(quick=quick), kernel='K1', bound=b1, timeout=300,
                   real=REAL_K1[:2], stubs=(STUB_EVAL, STUB_EXC), entry='evaluate_integer.python_evaluate',
                   outside=('which exceptions eval really raises for which text',)))
@@ -1494,6 +1538,9 @@ ASSUMPTIONS = [
     'quick-tier mutants (exit code, stdout, stderr, process starts, sandboxes)',
     'tool work-around: CrossHair is kept from "short-circuiting" its own contract-carrying replacements of the builtins hash() and '
     'repr() (harness/_C18_cli._chfix_builtin_contracts); the real functions are always executed - nothing is assumed',
+    'K3:replace, K6, K7 [selector]: once the selectors are concrete the real code runs natively on concrete data (CrossHair tracing '
+    'suspended, harness/_C18_cli.no_tracing): CrossHair\'s own model of re.sub / Match.expand does not raise like the real engine for '
+    'an invalid replacement string; the solver decides the enumeration of the selector space, not the run itself',
 ]
 OUTSIDE = [
     'every UTF-8 text: the program is run on a finite catalogue of mutants of a grammar of valid test cases (K6, K7); '
